@@ -14,6 +14,10 @@ def answer (line : String) : String :=
     match parseInts rest with
     | some ts => Proto.c14 sub ts
     | none => "parse-error ints"
+  | "cover" :: mode :: rest =>
+    match parseInts rest with
+    | some ts => Proto.cover mode ts
+    | none => "parse-error ints"
   | "ping" :: _ => "pong"
   | _ => "parse-error cmd"
 
